@@ -92,7 +92,7 @@ def install(reg, src):
     reg.assumption("A7 (C04): no division by a literal Constant(0) inside the tree (x/0 has an empty domain)")
 
     def deg_contract(key, rank, bounded=None, extra_args=()):
-        @reg.contract(key, props=["C04", "C15"] if "iterative" in key else ["C04"], cases={"node": cases}, group="deg",
+        @reg.contract(key, props=["C04", "C15", "C06", "C08"] if "iterative" in key else ["C04", "C06", "C08"], cases={"node": cases}, group="deg",
                       rank=rank, bounded=bounded)
         def _(c):
             sp = Spec(c.ip)
@@ -133,7 +133,7 @@ def install(reg, src):
     reg.mark_inline(f"{M}:_product_degree", f"{M}:_power_degree", f"{M}:_in_column_order")      # comparisons and a max: executed as written
     # ---- helper shared by the twins (present after the D8 repair): degree of the elements of a vector operand
     if f"{M}:_vector_elements_degree" in src.funcs:
-        @reg.contract(f"{M}:_vector_elements_degree", props=["C04", "C15"], cases={"vector": ["VectorVariable", "VectorExpression"]},
+        @reg.contract(f"{M}:_vector_elements_degree", props=["C04", "C15", "C06", "C08"], cases={"vector": ["VectorVariable", "VectorExpression"]},
                       group="deg", rank=4)
         def _(c):
             from .vecspec import vec_deg, vec_syn, vec_nd0
@@ -179,7 +179,7 @@ def install(reg, src):
         c.returns(T.int_())
 
     # ---- Expression.degree (memo field _degree), is_linear / is_quadratic
-    @reg.contract("optyx.core.expressions:Expression.degree", props=["C04"], cases={"memo": ["unset", "set"]})
+    @reg.contract("optyx.core.expressions:Expression.degree", props=["C04", "C06", "C08"], cases={"memo": ["unset", "set"]})
     def _(c):
         sp = Spec(c.ip)
         e = c.arg("self", T.expr())
@@ -217,7 +217,7 @@ def install(reg, src):
                    "(source scan); its invariant is assumed on entry and re-established on exit")
 
     def lin_contract(key, bound, argname="expr"):
-        @reg.contract(key, props=["C04", "C05", "C08"])
+        @reg.contract(key, props=["C04", "C05", "C08", "C06"])
         def _(c):
             sp = Spec(c.ip)
             e = c.arg(argname, T.expr())
@@ -357,7 +357,7 @@ def install_lp(reg, src):
             const_lemma(sp, sp.S.F("operand", sym.Ref)(r), sp.E)
 
     # ---- _extract_constant_impl:  res = value of the formula at the zero point
-    @reg.contract(f"{M}:_extract_constant_impl", props=["C05", "C07", "C08"], cases={"node": lin_cases}, group="lpconst", rank=1)
+    @reg.contract(f"{M}:_extract_constant_impl", props=["C05", "C07", "C08", "C06"], cases={"node": lin_cases}, group="lpconst", rank=1)
     def _(c):
         sp = Spec(c.ip)
         case = c.choose("node", lin_cases)
@@ -395,7 +395,7 @@ def install_lp(reg, src):
             c.loop(1, inv, havoc={"total": T.real("float")})
 
     # ---- _extract_all_coefficients_impl: accumulates multiplier * (linear part of e) into result
-    @reg.contract(f"{M}:_extract_all_coefficients_impl", props=["C05", "C08"], cases={"node": lin_cases}, group="lpcoef", rank=1)
+    @reg.contract(f"{M}:_extract_all_coefficients_impl", props=["C05", "C08", "C06"], cases={"node": lin_cases}, group="lpcoef", rank=1)
     def _(c):
         sp = Spec(c.ip)
         case = c.choose("node", lin_cases)
@@ -546,7 +546,9 @@ def install_lp2(reg, src):
             c.requires(num_term(nn) == NV(IDX), name="n is the number of variables")
         return e, vi, IDX, X
 
-    all_cases = lin_cases
+    # every node kind: for the kinds outside the LP class the routine must not return normally (is_linear answers False there,
+    # by the proved `lp-class` clause of the degree contract), so the post-condition is vacuous and NonLinearError the only exit
+    all_cases = degree_cases(src)
 
     def coef_post(c, sp, e, IDX, X):
         n = NV(IDX)
@@ -555,6 +557,8 @@ def install_lp2(reg, src):
             if not isinstance(res, (SArr, SSeq)):
                 return z3.BoolVal(False)
             ip = c.ip
+            if not c.verifying and isinstance(res, SArr):
+                ip.path.ghost.setdefault("lp_rows", []).append(res)      # coefficient rows of this path (DOT lemma instances)
             if isinstance(res, SSeq):
                 # a copied coefficient array: DOT over it is the sum of products (definition instance)
                 arr = sym.fresh("copied", sym.RealArr)
@@ -597,7 +601,7 @@ def install_lp2(reg, src):
             return [ln == n, tot == sp.den(e, sp.E, sp.PV) - sp.den(e, ZENV, sp.PV)]
         return post
 
-    @reg.contract(f"{M}:extract_all_linear_coefficients", props=["C05", "C08"], cases={"node": all_cases})
+    @reg.contract(f"{M}:extract_all_linear_coefficients", props=["C05", "C08", "C06"], cases={"node": all_cases})
     def _(c):
         sp = Spec(c.ip)
         case = c.choose("node", all_cases)
@@ -608,7 +612,7 @@ def install_lp2(reg, src):
 
     bin_cases = [f"BinaryOp:{op}" for op in BINARY_OPS]
 
-    @reg.contract(f"{M}:_try_extract_fast_binop", props=["C05", "C08"], cases={"node": bin_cases, "left": ["VectorSum", "LinearCombination", "other"],
+    @reg.contract(f"{M}:_try_extract_fast_binop", props=["C05", "C08", "C06"], cases={"node": bin_cases, "left": ["VectorSum", "LinearCombination", "other"],
                                                                          "right": ["Constant", "VectorSum", "other"]},
                   vacuous_ok=True)
     def _(c):
@@ -642,10 +646,10 @@ def install_lp2(reg, src):
             return post(res)
         c.ensures("coefficients", post2)
 
-    @reg.contract(f"{M}:extract_constant_term", props=["C05", "C07", "C08"], cases={"node": lin_cases})
+    @reg.contract(f"{M}:extract_constant_term", props=["C05", "C07", "C08", "C06"], cases={"node": all_cases})
     def _(c):
         sp = Spec(c.ip)
-        case = c.choose("node", lin_cases)
+        case = c.choose("node", all_cases)
         e = setup_node(c, sp, case)
         c.requires(sp.nodiv0(e), name="no division by the literal constant 0")
         c.raises("NonLinearError", when=None, name="raises NonLinearError (only when is_linear answered False)")
